@@ -6,8 +6,12 @@ REPO = os.environ.get("VERIF_REPO", "/repo")
 BUILD = os.path.join(VERIF, "build")
 LEAN = os.path.join(VERIF, "lean")
 HARNESS = os.path.join(VERIF, "harness")
-HARNESS_BIN = os.path.join(BUILD, "harness-target", "debug", "verif-harness")
-REPO_TARGET = os.path.join(BUILD, "repo-target")
+# VERIF_REPO=<dir> points every check at another checkout of git-ai (used for mutation testing in
+# a private copy so that concurrent work on /repo is not disturbed); build outputs are kept apart.
+_ALT = "" if REPO == "/repo" else "-alt-" + hashlib.sha1(REPO.encode()).hexdigest()[:10]
+HARNESS_TARGET = os.path.join(BUILD, "harness-target" + _ALT)
+HARNESS_BIN = os.path.join(HARNESS_TARGET, "debug", "verif-harness")
+REPO_TARGET = os.path.join(BUILD, "repo-target" + _ALT)
 GIT_AI_BIN = os.path.join(REPO_TARGET, "debug", "git-ai")
 DRIVER_BIN = os.path.join(LEAN, ".lake", "build", "bin", "driver")
 ALLOWED_AXIOMS = {"propext", "Classical.choice", "Quot.sound"}
@@ -65,14 +69,25 @@ def lake_build(targets):
 
 
 def build_harness():
-    with Lock("cargo-harness"):
-        shutil.copyfile(os.path.join(REPO, "Cargo.lock"), os.path.join(HARNESS, "Cargo.lock"))
-        rc, out, err = run(["cargo", "build", "--offline"], cwd=HARNESS, timeout=3600)
+    with Lock("cargo-harness" + _ALT):
+        hdir = HARNESS
+        if _ALT:
+            # private copy of the harness crate whose path dependency points at VERIF_REPO
+            hdir = os.path.join(BUILD, "harness-src" + _ALT)
+            if os.path.isdir(hdir):
+                shutil.rmtree(hdir)
+            shutil.copytree(HARNESS, hdir, ignore=shutil.ignore_patterns("Cargo.lock", "target"))
+            ct = open(os.path.join(hdir, "Cargo.toml")).read().replace('path = "/repo"', f'path = "{REPO}"')
+            open(os.path.join(hdir, "Cargo.toml"), "w").write(ct)
+            cc = open(os.path.join(hdir, ".cargo", "config.toml")).read().replace(os.path.join(BUILD, "harness-target"), HARNESS_TARGET)
+            open(os.path.join(hdir, ".cargo", "config.toml"), "w").write(cc)
+        shutil.copyfile(os.path.join(REPO, "Cargo.lock"), os.path.join(hdir, "Cargo.lock"))
+        rc, out, err = run(["cargo", "build", "--offline"], cwd=hdir, timeout=3600)
     return rc == 0, out + err
 
 
 def build_git_ai():
-    with Lock("cargo-repo"):
+    with Lock("cargo-repo" + _ALT):
         rc, out, err = run(["cargo", "build", "--offline", "--features", "test-support,verif-hooks",
                             "--bin", "git-ai", "--target-dir", REPO_TARGET], cwd=REPO, timeout=3600)
     return rc == 0, out + err
